@@ -178,3 +178,20 @@ func locateIn(bc *BodyCtx, off int) Loc {
 	}
 	return loc
 }
+
+// BlockExtent is the byte extent of a block including its labels and body even
+// when the parser recovered a header without braces (where Range() collapses to
+// the type keyword).
+func BlockExtent(b *hclsyntax.Block) Region {
+	r := b.Range()
+	rg := Region{b.TypeRange.Start.Byte, r.End.Byte}
+	for _, lr := range b.LabelRanges {
+		if lr.End.Byte > rg.End {
+			rg.End = lr.End.Byte
+		}
+	}
+	if b.Body != nil && b.Body.Range().End.Byte > rg.End {
+		rg.End = b.Body.Range().End.Byte
+	}
+	return rg
+}
